@@ -71,6 +71,15 @@ def gen_comp(rng):
                           [["run"], ["replace", "prerun-equal", 1], ["run"]],
                           [["run"], ["replace", "fresh", 1], ["run"], ["assign", 2], ["run"], ["assign", 1], ["replace", "back", 1], ["run"]]])
         return {"fam": "comp", "x": 1, "ops": [list(o) for o in tpl]}
+    if rng.random() < 0.15:
+        # a child input that stands for the macro's input is overwritten by hand, then the macro's input is assigned again
+        # (the very same object): the assignment has to travel down the value link again before the next run
+        x = rng.choice([1, 2])
+        how = rng.choice(["assign", "assign-panel", "run-kw"])
+        ops = [["run"], ["inner-assign", rng.choice([7, 0, -2])]] + ([[how, x], ["run"]] if how != "run-kw" else [[how, x]])
+        for _ in range(rng.randint(0, 4)):
+            ops.append(rng.choice([["run"], ["assign", rng.choice([0, 1, 2])], ["inner-assign", 9], ["assign-panel", x], ["run-kw", x], ["clear"]]))
+        return {"fam": "comp", "x": x, "ops": ops}
     ops = []
     for _ in range(rng.randint(4, 14)):
         r = rng.random()
@@ -267,8 +276,12 @@ def comp_trace(case, use_cache):
         try:
             if op[0] == "assign":
                 m.inputs.x.value = op[1]
-            elif op[0] == "run":
-                r = m.run()
+            elif op[0] == "assign-panel":
+                m.inputs.x = op[1]
+            elif op[0] == "inner-assign":
+                m.x.inputs.user_input.value = op[1]       # the child channel the macro's input x is value-linked to
+            elif op[0] in ("run", "run-kw"):
+                r = m.run() if op[0] == "run" else m.run(x=op[1])
                 out = ["val", _slot(r["out"]) if hasattr(r, "keys") else _slot(r)]
             elif op[0] == "clear":
                 m.failed = False
@@ -438,7 +451,7 @@ def oracle(case, obs):
 
 
 def _silent_before_run(case):
-    seen = False
+    seen = inner = False
     src, at_run = {}, None
     for op in case["ops"]:
         if case["fam"] == "wfd":
@@ -457,7 +470,11 @@ def _silent_before_run(case):
             continue
         if op[0].startswith("silent"):
             seen = True
-        elif op[0] == "run" and seen:
+        elif op[0] == "inner-assign":
+            inner = True        # the macro's input and its child channel differ until the macro's input is assigned again
+        elif op[0] in ("assign", "assign-panel", "run-kw") and not seen:
+            inner = False
+        if op[0] in ("run", "run-kw") and (seen or inner):
             return True
     return False
 
